@@ -152,7 +152,7 @@ class CodecScenario:
         for m in (ENC, UTIL):
             for f in repo.module(m).functions.values():
                 inline.add(f.fq)
-        self.ri = RepoInterp(repo, self.fi, inline=inline, call_hook=self.call_hook, may_fork=(), heap=True, max_depth=12)
+        self.ri = RepoInterp(repo, self.fi, inline=inline, call_hook=self.call_hook, may_fork=(), heap=True, max_depth=40)
         self.ri.interp.exc_parents = exception_hierarchy(repo)
         self.ri.on_attr = self.on_attr  # type: ignore[method-assign]
         self.ri.interp.on_attr = self.on_attr
